@@ -594,8 +594,8 @@ def validate(n=300, seed=1):
           f"disagreements {len(b['disagreements'])} ({b['seconds']} s)")
     print("    per generator:", json.dumps(b["per_generator"]))
     print("    excluded:", json.dumps(b["stats"]["excluded"]), "unevaluated:", json.dumps(b["stats"]["unevaluated"]))
-    os.makedirs(os.path.join(common.VERIF, "evidence"), exist_ok=True)
-    path = os.path.join(common.VERIF, "evidence", "SRC-validate.json")
+    os.makedirs(os.path.join(common.VERIF, "evidence-aux"), exist_ok=True)
+    path = os.path.join(common.VERIF, "evidence-aux", "SRC-validate.json")
     json.dump({"snapshot": a, "generated": {k: v for k, v in b.items() if k != "disagreements"},
                "disagreements": b["disagreements"][:20], "seed": seed, "n": n}, open(path, "w"), indent=1)
     print("    evidence:", os.path.relpath(path, common.VERIF))
